@@ -100,8 +100,12 @@ static void handle_msg(const tN2kMsg &m) {
   }
 }
 static tNMEA2000 *g_onopen_node = 0; static uint32_t g_onopen_iv = 0, g_onopen_off = 0;
+// appsched=<period>,<offset>: the application's own tN2kSyncScheduler, given its period and offset in the OnOpen callback (the documented
+// use: schedules synchronised to the moment of Open()); the harness polls it after every operation and logs note:7 when it fires
+static tN2kSyncScheduler g_app; static bool g_app_on = false; static uint32_t g_app_period = 0, g_app_offset = 0;
 static void on_open() {
   if (g_log && g_out) *g_out += "note:open ";
+  if (g_app_on) g_app.SetPeriodAndOffset(g_app_period, g_app_offset);
   if (g_onopen_node) g_onopen_node->SetHeartbeatIntervalAndOffset(g_onopen_iv, g_onopen_off);    // onopen=: the application configures the heartbeat from its OnOpen callback
 }
 static std::vector<unsigned long> g_iso_accept;
@@ -259,6 +263,8 @@ static void run_case(const std::string &line) {
     bool shortc = kv.count("short") && kv["short"] == "1";
     // onopen=<interval>,<offset>: the application configures the heartbeat from its SetOnOpen callback (the last thing Open() does)
     g_onopen_node = 0;
+    g_app_on = false; g_app.Disable();
+    if (kv.count("appsched")) { size_t c = kv["appsched"].find(','); if (c != std::string::npos) { g_app_period = (uint32_t)tounum(kv["appsched"].substr(0, c)); g_app_offset = (uint32_t)tounum(kv["appsched"].substr(c + 1)); g_app_on = true; } }
     if (kv.count("onopen")) { size_t c = kv["onopen"].find(','); if (c != std::string::npos) { g_onopen_iv = (uint32_t)tounum(kv["onopen"].substr(0, c)); g_onopen_off = (uint32_t)tounum(kv["onopen"].substr(c + 1)); g_onopen_node = n; } }
     n->SetMsgHandler(handle_msg);
     n->SetOnOpen(on_open);
@@ -389,6 +395,7 @@ static void run_case(const std::string &line) {
         n->rx.push_back(f);
       }
       else out += "badop ";
+      if (g_app_on && g_app.IsTime()) { g_app.UpdateNextTime(); out += "note:7 "; }
       relocate(n, ndev);
     }
     g_log = false;
